@@ -87,7 +87,9 @@ pub proof fn use_algebra<C: Ciphersuite>()
         forall|a: Element<C>, b: Element<C>| #[trigger] a.eq_spec(&b) == (a == b),
         forall|e: FieldError, r: Error<C>| #[trigger] vstd::std_specs::control_flow::spec_from::<Error<C>, FieldError>(e, r) ==> r == Error::<C>::FieldError(e),
         forall|e: GroupError, r: Error<C>| #[trigger] vstd::std_specs::control_flow::spec_from::<Error<C>, GroupError>(e, r) ==> r == Error::<C>::GroupError(e),
+        forall|v: Seq<u8>| #[trigger] v.subrange(0, v.len() as int) == v,
 {
+    assert forall|v: Seq<u8>| #[trigger] v.subrange(0, v.len() as int) == v by { assert(v.subrange(0, v.len() as int) =~= v); }
     FF::<C>::ax_ops();
     GG::<C>::ax_eops();
     assert forall|e: FieldError, r: Error<C>| #[trigger] vstd::std_specs::control_flow::spec_from::<Error<C>, FieldError>(e, r) implies r == Error::<C>::FieldError(e) by { ax_question_mark_field::<C>(e, r); }
@@ -633,13 +635,17 @@ pub proof fn lemma_collected_map<C: Ciphersuite>(m: Map<Identifier<C>, crate::ke
         vals: Seq<(Identifier<C>, crate::keys::VerifyingShare<C>)>, c: Seq<crate::keys::CoefficientCommitment<C>>)
     requires ids.no_duplicates(), vals.len() == ids.len(),
         forall|k: int| 0 <= k < vals.len() ==> #[trigger] vals[k] == (ids[k], crate::keys::VerifyingShare::<C>(crate::serialization::SerializableElement(spec_vss::<C>(comm_vals::<C>(c), ids[k].0.0, s1::<C>())))),
-        m.dom() == vals.map_values(|p: (Identifier<C>, crate::keys::VerifyingShare<C>)| p.0).to_set(),
+        forall|key: Identifier<C>| #[trigger] m.contains_key(key) <==> exists|k: int| 0 <= k < vals.len() && (#[trigger] vals[k]).0 == key,
         forall|k: int| 0 <= k < vals.len() && (forall|j: int| k < j < vals.len() ==> vals[j].0 != vals[k].0) ==> m[#[trigger] vals[k].0] == vals[k].1,
     ensures m.dom() == ids.to_set(),
         forall|id: Identifier<C>| ids.to_set().contains(id) ==> #[trigger] m[id] == crate::keys::VerifyingShare::<C>(crate::serialization::SerializableElement(spec_vss::<C>(comm_vals::<C>(c), id.0.0, s1::<C>()))),
 {
-    let ks = vals.map_values(|p: (Identifier<C>, crate::keys::VerifyingShare<C>)| p.0);
-    assert(ks =~= ids) by { assert forall|k: int| 0 <= k < ks.len() implies ks[k] == ids[k] by { assert(vals[k].0 == ids[k]); } }
+    assert(m.dom() =~= ids.to_set()) by {
+        assert forall|x: Identifier<C>| m.dom().contains(x) <==> ids.to_set().contains(x) by {
+            if m.contains_key(x) { let k = choose|k: int| 0 <= k < vals.len() && (#[trigger] vals[k]).0 == x; assert(ids[k] == x); }
+            if ids.contains(x) { let k = choose|k: int| 0 <= k < ids.len() && ids[k] == x; assert(vals[k].0 == x); }
+        }
+    }
     assert forall|id: Identifier<C>| ids.to_set().contains(id) implies #[trigger] m[id] == crate::keys::VerifyingShare::<C>(crate::serialization::SerializableElement(spec_vss::<C>(comm_vals::<C>(c), id.0.0, s1::<C>()))) by {
         let k = choose|k: int| 0 <= k < ids.len() && ids[k] == id;
         assert(vals[k].0 == id);
@@ -738,6 +744,49 @@ pub proof fn lemma_first_share_err_none<C: Ciphersuite>(keys: Seq<Identifier<C>>
     if j > 0 {
         lemma_first_share_err_step::<C>(keys, r1, r2, own, j - 1);
         assert(spec_first_share_err::<C>(keys, r1, r2, own, j - 1) == spec_first_share_err::<C>(keys, r1, r2, own, j));
+    }
+}
+
+
+// ================= signing (RFC 9591 sections 4.3 - 4.6, 5.2, 5.3) =================
+pub open spec fn sc_has_identity<C: Ciphersuite>(c: crate::round1::SigningCommitments<C>) -> bool { c.hiding.0.0 == e0::<C>() || c.binding.0.0 == e0::<C>() }
+
+// the commitment list of a signing package: (identifier, commitments) in ascending identifier order
+pub open spec fn commit_items<C: Ciphersuite>(m: Map<Identifier<C>, crate::round1::SigningCommitments<C>>) -> Seq<(Identifier<C>, crate::round1::SigningCommitments<C>)>
+{ sorted_seq(m.dom()).map_values(|id: Identifier<C>| (id, m[id])) }
+
+pub open spec fn items_have_identity<C: Ciphersuite>(items: Seq<(Identifier<C>, crate::round1::SigningCommitments<C>)>) -> bool
+{ exists|k: int| 0 <= k < items.len() && sc_has_identity::<C>((#[trigger] items[k]).1) }
+
+// RFC 9591 4.3 encode_group_commitment_list: concatenation of enc(id) || enc(hiding) || enc(binding) over the first n items
+pub open spec fn spec_encode_list<C: Ciphersuite>(items: Seq<(Identifier<C>, crate::round1::SigningCommitments<C>)>, n: int) -> Seq<u8> decreases n
+{ if n <= 0 { Seq::empty() } else { spec_encode_list::<C>(items, n - 1) + enc_id::<C>(items[n - 1].0) + enc_el::<C>(items[n - 1].1.hiding.0.0) + enc_el::<C>(items[n - 1].1.binding.0.0) } }
+
+// RFC 9591 4.4 compute_binding_factors: rho_input_prefix = enc(group_public_key) || H4(msg) || H5(encoded_commitment_list) (|| additional prefix)
+pub open spec fn spec_bf_prefix<C: Ciphersuite>(vk: Element<C>, msg: Seq<u8>, items: Seq<(Identifier<C>, crate::round1::SigningCommitments<C>)>, extra: Seq<u8>) -> Seq<u8>
+{ enc_el::<C>(vk) + C::spec_H4(msg) + C::spec_H5(spec_encode_list::<C>(items, items.len() as int)) + extra }
+pub open spec fn spec_binding_factor<C: Ciphersuite>(vk: Element<C>, msg: Seq<u8>, items: Seq<(Identifier<C>, crate::round1::SigningCommitments<C>)>, extra: Seq<u8>, id: Identifier<C>) -> Scalar<C>
+{ C::spec_H1(spec_bf_prefix::<C>(vk, msg, items, extra) + enc_id::<C>(id)) }
+
+
+// the (identifier, binding factor) pairs collected into a map: one entry per identifier (the identifiers are duplicate free)
+pub proof fn lemma_bf_collected<C: Ciphersuite>(m: Map<Identifier<C>, BindingFactor<C>>, pre: Seq<(Identifier<C>, Vec<u8>)>, srt: Seq<Identifier<C>>, vals: Seq<(Identifier<C>, BindingFactor<C>)>)
+    requires srt.no_duplicates(), pre.len() == srt.len(), forall|k: int| 0 <= k < pre.len() ==> (#[trigger] pre[k]).0 == srt[k],
+        vals.len() == pre.len(), forall|k: int| 0 <= k < vals.len() ==> #[trigger] vals[k] == (pre[k].0, BindingFactor::<C>(C::spec_H1(pre[k].1@))),
+        forall|key: Identifier<C>| #[trigger] m.contains_key(key) <==> exists|k: int| 0 <= k < vals.len() && (#[trigger] vals[k]).0 == key,
+        forall|k: int| 0 <= k < vals.len() && (forall|j: int| k < j < vals.len() ==> vals[j].0 != vals[k].0) ==> m[#[trigger] vals[k].0] == vals[k].1,
+    ensures m.dom() == srt.to_set(), forall|k: int| 0 <= k < srt.len() ==> (#[trigger] m[srt[k]]).0 == C::spec_H1(pre[k].1@)
+{
+    assert(m.dom() =~= srt.to_set()) by {
+        assert forall|x: Identifier<C>| m.dom().contains(x) <==> srt.to_set().contains(x) by {
+            if m.contains_key(x) { let k = choose|k: int| 0 <= k < vals.len() && (#[trigger] vals[k]).0 == x; assert(srt[k] == x); }
+            if srt.contains(x) { let k = choose|k: int| 0 <= k < srt.len() && srt[k] == x; assert(vals[k].0 == x); }
+        }
+    }
+    assert forall|k: int| 0 <= k < srt.len() implies (#[trigger] m[srt[k]]).0 == C::spec_H1(pre[k].1@) by {
+        assert(vals[k].0 == srt[k]);
+        assert forall|j: int| k < j < vals.len() implies vals[j].0 != vals[k].0 by { assert(vals[j].0 == srt[j]); }
+        assert(m[vals[k].0] == vals[k].1);
     }
 }
 
